@@ -1,8 +1,11 @@
 pub mod automaton;
+pub mod build;
+pub mod classes;
 pub mod common;
 pub mod history;
 pub mod modes;
 pub mod scan;
+pub mod serde;
 
 use crate::run::Check;
 
@@ -15,9 +18,12 @@ pub fn all() -> Vec<Box<dyn Check>> {
         Box::new(scan::C05),
         Box::new(modes::C06),
         Box::new(scan::C07),
+        Box::new(classes::C08),
         Box::new(history::C09),
         Box::new(history::C10),
         Box::new(history::C11),
+        Box::new(build::C15),
+        Box::new(serde::C16),
     ]
 }
 
